@@ -34,6 +34,15 @@ CHECKS = {
         "outside": "concurrent enqueue/check-in (two-thread harness not built in this revision); service Get path",
         "min_completed": 3,
     },
+    "C07": {
+        "groups": [
+            {"pkg": "Havoc/pkg/logr", "entries": ["H_c07_service_file", "H_c07_console_log", "H_c07_screenshot"], "split": True},
+            {"pkg": "Havoc/pkg/agent", "with": AGENT_WITH, "entries": ["H_c07_download_path", "H_c07_chunks"], "split": True},
+        ],
+        "bounds": "file names of 1..3 components joined by / or \\ (per joint), each component one of '..', '.', '', 1..2 arbitrary non-separator bytes, or (once) 9 arbitrary non-separator bytes; crafted agent ids of 1..2 such components; chunk histories of 1..4 open/write/close steps over two file ids and one unknown id, chunks of 1..2 arbitrary bytes.",
+        "outside": "symlinks and OS path semantics (os.* are effect recorders inside gosx, real files in the replay); names longer than the bound",
+        "min_completed": 3,
+    },
     "C11": {
         "groups": [
             {"pkg": "Havoc/cmd/server", "with": SRV_WITH, "entries": ["H_c11_append", "H_c11_replay", "H_c11_fanout", "H_c11_fault"], "no_native_witness": True, "no_native_replay": True},
@@ -104,6 +113,8 @@ LEVELS = {
     },
     "C05": {"text": "Bounded symbolic execution of the real TaskDispatch gate for every command id with symbolic request ids and bodies against an effect recorder; the negative statement (nothing happens for a non-outstanding id) is decided by the solver for all ids and bodies in the bound.",
             "note": "Trusted: go/ssa, gosx, z3; recorder TeamServer, os/net effect stubs; single-package command table transcribed from Command.c."},
+    "C07": {"text": "Bounded symbolic execution of DownloadAdd/Write/Close and the logr writers with the real path/filepath.Clean and strings code over symbolic path components; every os call is recorded and the containment oracle re-cleans the recorded path; counterexamples are replayed on a real temp loot tree.",
+            "note": "os.* = effect recorder with the documented contracts; loot root fixed; names beyond the bound outside."},
     "C11": {"text": "Bounded symbolic execution of the real event log / replay / fan-out / SendEvent code with the websocket write as a fault-injecting recorder; the fault sequence is a symbolic variable, and a mutex left held after any send is reported by the engine's lock model.",
             "note": "websocket, JSON encoder and DB are stubs; single-threaded (interleavings of concurrent broadcasters are outside)."},
     "C06": {"text": "Bounded symbolic execution of the real handleRequest/ClientAuthenticate/EventBroadcast decision logic over an arbitrary first Package (the image of json.Unmarshal), with SHA3 as an injective digest.",
